@@ -173,6 +173,9 @@ def gen(rng, tier):
     lists = [[], [e for e in edge]] + [[e] for e in edge] + [[a, b] for a, b in itertools.product(edge[:7], edge[5:])]
     for _ in range(1500 if tier == "thorough" else 120):
         lists.append([rng.choice(edge + [rng.getrandbits(rng.choice([4, 8, 16, 32, 64]))]) for _ in range(rng.randrange(0, 6))])
+    # element counts around the CBOR head-size thresholds of a *definite* array (23/24, 255/256): the indefinite form has no count
+    for ln in (22, 23, 24, 25, 26, 100, 255, 256, 257, 300) if tier == "quick" else (22, 23, 24, 25, 26, 31, 32, 100, 255, 256, 257, 300, 1000, 65535, 65536):
+        lists.append([rng.choice(edge[:8] + [rng.getrandbits(16)]) for _ in range(ln)])
     for l in lists:
         yield Case("cborenc", [nats(l)], "cbor")
         yield Case("cbordec", [hx(CborIndefiniteLenArrayEncoder.Encode(l))], "cbor")
